@@ -317,7 +317,33 @@ func genC04wt(seed uint64, tier string) *Scenario {
 		rpc.Server = [][]SOp{srv}
 		s.RPCs = append(s.RPCs, rpc)
 	}
-	if !classB && r.Chance(1, 6) {
+	aligned := !classB && r.Chance(1, 5)
+	if aligned {
+		// a stream opened at the instant of a BDP window raise: on an ideal
+		// network RPC 1's response (more than 2/3 of the default window) arrives
+		// at t=0 and starts a BDP ping; the peer acknowledges it d later, which
+		// raises the window to twice the sample; RPCs 2.. start at d, so NewStream
+		// races with updateFlowControl (seeded change C04b), and their peer
+		// scripts fill the window the client has advertised by then before the
+		// application reads
+		s.Net.LatencyNs, s.Net.StallPct, s.Net.DialDelayNs = 0, 0, 0
+		c.Static = false
+		c.StreamWindow = int32(core.Pick(r, 0, 65535))
+		c.ConnWindow = int32(core.Pick(r, 0, 65535, 70000))
+		d := int64(core.Pick(r, 1000, 1000000, 1000000, 50000000))
+		p.BDPAckDelayNs = d
+		first := r.Range(45000, 65000)
+		s.RPCs = []RPC{{ID: 1,
+			Client: []Op{{Op: "send", N: r.Range(0, 100)}, {Op: "close_send"}, {Op: "recv"}, {Op: "recv_all"}},
+			Server: [][]SOp{{{Op: "headers"}, {Op: "send", N: first}, {Op: "sleep", Ns: 2*d + 200000000}, {Op: "trailers"}}}}}
+		for i := r.Range(1, 3); i > 0; i-- {
+			id := uint32(len(s.RPCs) + 1)
+			s.RPCs = append(s.RPCs, RPC{ID: id, StartNs: d + int64(core.Pick(r, 0, 0, 0, 0, 1, -1)),
+				Client: []Op{{Op: "send", N: r.Range(0, 100)}, {Op: "close_send"}, {Op: "sleep", Ns: int64(core.Pick(r, 1000000, 100000000))}, {Op: "recv_all"}},
+				Server: [][]SOp{{{Op: "headers"}, {Op: "send", N: r.Range(66000, 2*first-10)}, {Op: "trailers"}}}})
+		}
+	}
+	if !classB && !aligned && r.Chance(1, 6) {
 		// input rider: a length prefix close to 2^31 makes the client grant the
 		// largest window it may (never more than 2^31-1 in total)
 		s.Client.MaxRecv = 1<<31 - 1
@@ -326,7 +352,7 @@ func genC04wt(seed uint64, tier string) *Scenario {
 	for _, at := range []int64{1000000, 30000000, 700000000, horizon - 1000000, horizon + 400000000} {
 		s.Actions = append(s.Actions, act(at, "check"))
 	}
-	if r.Chance(1, 5) && !classB {
+	if r.Chance(1, 5) && !classB && !aligned {
 		genFaults(r, s, "stall")
 	}
 	sortActions(s)
